@@ -1,8 +1,13 @@
 """C15 — a Phonopy object answers from its current state, whatever its history."""
 from contracts import py_phonopy as PP
+from contracts import py_dmnac as DN
 
 
 def build(run):
     PP.class_invariant(run)
+    PP.copy_forwards_options(run)
+    PP.atoms_getters_return_copies(run)
+    DN.nac_params_not_modified(run)
     run.not_decided += ["ownership of arrays handed in/out (force_constants setter keeps the caller's array by documented design)",
-                        "result objects (mesh, band structure, ...) computed before a state change", "copy() independence"]
+                        "result objects (mesh, band structure, ...) computed before a state change",
+                        "copy() beyond the forwarding of constructor options; getters of Phonopy itself (force_constants, nac_params return internal objects by design)"]
